@@ -652,6 +652,10 @@ func runC01(c *an.Check) {
 	c01R5(c)
 	c01R6(c)
 	c01R7(c)
+	// The depth clause of C01 ("only after the opening transaction has the
+	// required depth") is decided by the watchers' depth rule (c20.go), run here
+	// under C01's own rule id.
+	c20DepthRule(c, "C01.R8")
 }
 
 func c01R2(c *an.Check, pays []c01Pay) {
